@@ -10,7 +10,7 @@
 (* belongs to a listed property; failed checks are accumulated in `viol`   *)
 (* and printed at the end of the trace.                                    *)
 (***************************************************************************)
-EXTENDS ArcheAbs, Json, IOUtils, SequencesExt
+EXTENDS ArcheAbs, Arche, Json, IOUtils, SequencesExt
 
 Trace == ndJsonDeserialize(IOEnv.TRACE)
 
@@ -19,9 +19,9 @@ Trace == ndJsonDeserialize(IOEnv.TRACE)
 Strict == "STRICT" \in DOMAIN IOEnv /\ IOEnv.STRICT = "1"
 OpenRel(w, f) == ~Strict /\ OpenRelCase(w, f)
 
-VARIABLES l, g, viol, nchk
+VARIABLES l, g, viol, nchk, prev
 
-vars == <<l, g, viol, nchk>>
+vars == <<l, g, viol, nchk, prev>>
 
 Chk(prop, name, ok) == <<prop, name, ok>>
 
@@ -40,6 +40,7 @@ CfgOf(a) ==
       nres  |-> a.nres,
       totalBits |-> a.totalBits,
       lst   |-> [on |-> a.listener, S |-> a.ls, C |-> Range(a.lc), hasC |-> a.lhasc],
+      capInc |-> a.capInc, relCapInc |-> a.relCapInc,
       isDispatch |-> a.isDispatch,
       subs  |-> [i \in DOMAIN a.dispatch |-> [on |-> TRUE, S |-> a.dispatch[i].s, C |-> Range(a.dispatch[i].c),
                                                hasC |-> a.dispatch[i].hasc]] ]
@@ -86,6 +87,8 @@ ObsChecks(w, obs) ==
        Chk("C01", "obs-components", \A i \in DOMAIN E : EntOK(w, E[i])),
        Chk("C01", "obs-values", \A i \in DOMAIN E : EntValsOK(w, E[i])),
        Chk("C05", "obs-targets", \A i \in DOMAIN E : EntTgtOK(w, E[i])),
+       Chk("C06", "obs-nothing-foreign-under-a-target",
+           \A i \in DOMAIN E : E[i].rel # -1 => (EntOK(w, E[i]) /\ EntValsOK(w, E[i]) /\ EntTgtOK(w, E[i]))),
        Chk("C09", "obs-locked", obs.locked = Locked(w)),
        Chk("C20", "obs-resources", Pairs(obs.res) = { <<r, w.res[r]>> : r \in DOMAIN w.res }
                                     /\ Len(obs.res) = Cardinality(DOMAIN w.res)) >>
@@ -118,8 +121,10 @@ SweepChecks(w, sw) ==
                    /\ NoDup(s.cached) /\ NoDup(s.orig)
                    /\ Range(s.cached) = Range(s.orig) )
         okAbs(s) == OpenRel(w, s.f) \/ Range(s.orig) = QuerySet(w, s.f)
+        okCached(s) == OpenRel(w, s.f) \/ (NoDup(s.cached) /\ Range(s.cached) = QuerySet(w, s.f))
     IN << Chk("C07", "sweep-cached-equals-original", \A i \in DOMAIN sw : ok(sw[i])),
-          Chk("C03", "sweep-original-is-matchset", \A i \in DOMAIN sw : okAbs(sw[i])) >>
+          Chk("C03", "sweep-original-is-matchset", \A i \in DOMAIN sw : okAbs(sw[i])),
+          Chk("C03", "sweep-registered-query-is-matchset-once", \A i \in DOMAIN sw : okCached(sw[i])) >>
 
 ---------------------------------------------------------------------------
 (* Event checks *)
@@ -579,7 +584,88 @@ AllChecks(ln, w, r) ==
              \o (IF "sweep" \in DOMAIN ln THEN SweepChecks(r.g, ln.sweep) ELSE <<>>)
              \o (IF ln.op = "NewWorld" THEN <<>> ELSE EventChecks(w, r.g, ln.events, r.evs))
 
-EmptyCfg == [comps |-> {}, rels |-> {}, sized |-> {}, nres |-> 0, totalBits |-> 256,
+---------------------------------------------------------------------------
+(* Layer-2 conformance: the hidden state logged by the hook (World.VerifShape) evolves exactly as     *)
+(* Arche.tla says, one step at a time from the code's own previous state.  Differences are DRIFT:     *)
+(* they concern allocation and ordering policy that no listed property talks about.                    *)
+
+ShapeState(sh, obs, cfg, regs) ==
+    LET valsOf(h) == IF \E i \in DOMAIN obs.ents : obs.ents[i].e = h
+                     THEN LET P == Pairs(EntRec(obs, h).vals) IN [c \in { p[1] : p \in P } |-> (CHOOSE p \in P : p[1] = c)[2]]
+                     ELSE [c \in {} |-> 0]
+    IN [ pool |-> PoolOf(sh.pool),
+         eidx |-> sh.eidx,
+         tflag |-> Range(sh.tflag),
+         nodes |-> [n \in DOMAIN sh.nodes |->
+                      [mask |-> Range(sh.nodes[n].mask), rel |-> sh.nodes[n].rel, active |-> sh.nodes[n].active,
+                       tbls |-> [t \in DOMAIN sh.nodes[n].tbls |->
+                                   [tgt |-> sh.nodes[n].tbls[t].tgt, active |-> sh.nodes[n].tbls[t].active,
+                                    rows |-> [r \in DOMAIN sh.nodes[n].tbls[t].rows |->
+                                                [e |-> sh.nodes[n].tbls[t].rows[r], v |-> valsOf(sh.nodes[n].tbls[t].rows[r])]],
+                                    cap |-> sh.nodes[n].tbls[t].cap]],
+                       free |-> sh.nodes[n].free]],
+         cache |-> [i \in DOMAIN sh.cache |->
+                      [fid |-> sh.cache[i].fid, f |-> regs[sh.cache[i].fid + 1].f, list |-> sh.cache[i].list,
+                       hasIdx |-> sh.cache[i].hasIdx, idx |-> Range(sh.cache[i].idx)]],
+         fidNext |-> sh.fidNext,
+         cfg |-> cfg ]
+
+(* what is compared: everything but the component values (they are compared through the observation) *)
+ProjTables(x) == [n \in DOMAIN x.nodes |->
+                    [mask |-> x.nodes[n].mask, rel |-> x.nodes[n].rel, active |-> x.nodes[n].active, free |-> x.nodes[n].free,
+                     tbls |-> [t \in DOMAIN x.nodes[n].tbls |->
+                                 [tgt |-> x.nodes[n].tbls[t].tgt, active |-> x.nodes[n].tbls[t].active, cap |-> x.nodes[n].tbls[t].cap,
+                                  rows |-> [r \in DOMAIN x.nodes[n].tbls[t].rows |-> x.nodes[n].tbls[t].rows[r].e]]]]]
+ProjCache(x) == [i \in DOMAIN x.cache |-> [fid |-> x.cache[i].fid, list |-> x.cache[i].list, hasIdx |-> x.cache[i].hasIdx, idx |-> x.cache[i].idx]]
+
+FidOf(f) == IF f.k = "cached" THEN f.reg ELSE -1
+GivenVals(w, ids, vs) == LET V == ValsFrom(w, ids, vs) IN V
+
+(* the expected hidden state after a line that did not panic; pre: state before, w: ghost before *)
+L2Expect(ln, pre, w) ==
+    LET a == ln.args IN
+    CASE ln.op \in {"NewEntity", "NewEntityWith"} ->
+            LCreate(pre, a.ids, IF ln.op = "NewEntityWith" THEN ValsFrom(w, a.ids, a.vals) ELSE EmptyFun, FALSE, -1, Zero, 1, FALSE).s
+      [] ln.op = "BuilderNew" ->
+            LCreate(pre, a.ids, IF a.withVals THEN ValsFrom(w, a.ids, a.vals) ELSE EmptyFun, a.hasTgt, a.rel, a.tgt, 1, FALSE).s
+      [] ln.op = "NewBatch" ->
+            LCreate(pre, a.ids, IF a.withVals THEN ValsFrom(w, a.ids, a.vals) ELSE EmptyFun, a.hasTgt, a.rel, a.tgt, a.n, TRUE).s
+      [] ln.op = "RemoveEntity" -> LRemove(pre, a.e)
+      [] ln.op = "Exchange" ->
+            IF a.add = <<>> /\ a.rem = <<>> THEN pre
+            ELSE LExchange(pre, a.e, a.add, a.rem, a.hasRel /\ a.hasTgt, a.rel, a.tgt, EmptyFun).s
+      [] ln.op = "Assign" -> LExchange(pre, a.e, a.ids, <<>>, a.hasRel /\ a.hasTgt, a.rel, a.tgt, ValsFrom(w, a.ids, a.vals)).s
+      [] ln.op = "SetRelation" -> LSetRelation(pre, a.e, a.tgt)
+      [] ln.op = "BatchExchange" ->
+            IF a.add = <<>> /\ a.rem = <<>> THEN pre
+            ELSE LBatchExchange(pre, Core(a.f), FidOf(a.f), a.add, a.rem, a.hasRel, a.rel, a.tgt).s
+      [] ln.op = "BatchSetRelation" -> LBatchSetRelation(pre, Core(a.f), FidOf(a.f), a.tgt)
+      [] ln.op = "BatchRemove" -> LBatchRemove(pre, Core(a.f), FidOf(a.f))
+      [] ln.op = "Register" -> LRegister(pre, a.f)
+      [] ln.op = "Unregister" -> LUnregister(pre, a.reg)
+      [] ln.op = "Reset" -> LReset(pre)
+      [] ln.op = "Load" -> LLoad(pre, a.dump)
+      [] OTHER -> pre
+
+L2Checks(ln, w, regsAfter) ==
+    IF "shape" \notin DOMAIN ln \/ "shape" \notin DOMAIN prev[ln.w] \/ ln.op \in {"NewWorld", "Fork", "TwinEq"}
+       \/ (ln.op = "Fork") THEN <<>>
+    ELSE
+    LET cfg2 == [rels |-> w.cfg.rels, sized |-> w.cfg.sized, capInc |-> w.cfg.capInc, relCapInc |-> w.cfg.relCapInc]
+        pre == ShapeState(prev[ln.w].shape, prev[ln.w].obs, cfg2, w.regs)
+        post == ShapeState(ln.shape, ln.obs, cfg2, regsAfter)
+        exp == IF ln.res.panic THEN pre ELSE L2Expect(ln, pre, w)
+        okPanic == ln.res.panic =>
+                      (post.pool = pre.pool /\ post.eidx = pre.eidx /\ ProjCache(post) = ProjCache(pre)
+                       /\ \A n \in DOMAIN pre.nodes : ProjTables(post)[n].tbls = ProjTables(pre)[n].tbls \/ Len(post.nodes[n].tbls) >= Len(pre.nodes[n].tbls))
+    IN IF ln.res.panic THEN << Chk("DRIFT", "l2-failed-call-leaves-entities-in-place", okPanic) >>
+       ELSE << Chk("DRIFT", "l2-entity-pool", post.pool = exp.pool),
+               Chk("DRIFT", "l2-entity-index", post.eidx = exp.eidx /\ post.tflag = exp.tflag),
+               Chk("DRIFT", "l2-tables-rows-freelists", ProjTables(post) = ProjTables(exp)),
+               Chk("DRIFT", "l2-filter-cache", ProjCache(post) = ProjCache(exp) /\ post.fidNext = exp.fidNext),
+               Chk("DRIFT", "l2-structural-invariants", StructInv(post) /\ CacheInv(post)) >>
+
+EmptyCfg == [comps |-> {}, rels |-> {}, sized |-> {}, nres |-> 0, totalBits |-> 256, capInc |-> 1, relCapInc |-> 0,
              lst |-> [on |-> FALSE, S |-> 0, C |-> {}, hasC |-> FALSE], isDispatch |-> FALSE, subs |-> <<>>]
 
 Init ==
@@ -587,6 +673,7 @@ Init ==
     /\ g = [k \in {0, 1} |-> InitWorld(EmptyCfg)]
     /\ viol = <<>>
     /\ nchk = [p \in PropIds |-> 0]
+    /\ prev = [k \in {0, 1} |-> [none |-> TRUE]]
 
 (* A twin world: forked after Reset (a fresh world with the same registrations) or by LoadEntities. *)
 ForkWorld(ln) ==
@@ -630,7 +717,7 @@ Step ==
     /\ LET ln == Trace[l] IN
        IF ln.op = "TwinEq" THEN
           LET cs == TwinChecks(ln) fs == Failed(cs) IN
-          /\ g' = g
+          /\ g' = g /\ prev' = prev
           /\ viol' = IF Len(viol) > 200 THEN viol ELSE viol \o Record(fs, ln)
           /\ nchk' = FoldSeq(LAMBDA c, acc : [acc EXCEPT ![c[1]] = @ + 1], nchk, cs)
        ELSE IF ln.op = "Fork" THEN
@@ -639,17 +726,19 @@ Step ==
                     \o ObsChecks(w1, ln.obs) \o PoolChecks(ln, w1, w1)
               fs == Failed(cs) IN
           /\ g' = [g EXCEPT ![1] = [w1 EXCEPT !.pool = PoolOf(ln.obs.pool)]]
+          /\ prev' = [prev EXCEPT ![1] = IF "shape" \in DOMAIN ln THEN [shape |-> ln.shape, obs |-> ln.obs] ELSE [none |-> TRUE]]
           /\ viol' = IF Len(viol) > 200 THEN viol ELSE viol \o Record(fs, ln)
           /\ nchk' = FoldSeq(LAMBDA c, acc : [acc EXCEPT ![c[1]] = @ + 1], nchk, cs)
        ELSE
           LET w  == g[ln.w]
               r  == Eval(ln, w)
-              cs == AllChecks(ln, w, r)
+              cs == AllChecks(ln, w, r) \o (IF r.skip THEN <<>> ELSE L2Checks(ln, w, r.g.regs))
               fs == Failed(cs)
               bad == fs # <<>> \/ r.skip
               w2 == IF bad /\ ln.op # "NewWorld" THEN FromObs(r.g, ln.obs)
                     ELSE [r.g EXCEPT !.pool = PoolOf(ln.obs.pool)]
           IN /\ g' = [g EXCEPT ![ln.w] = w2]
+             /\ prev' = [prev EXCEPT ![ln.w] = IF "shape" \in DOMAIN ln THEN [shape |-> ln.shape, obs |-> ln.obs] ELSE [none |-> TRUE]]
              /\ viol' = IF Len(viol) > 200 THEN viol ELSE viol \o Record(fs, ln)
              /\ nchk' = FoldSeq(LAMBDA c, acc : [acc EXCEPT ![c[1]] = @ + 1], nchk, cs)
     /\ l' = l + 1
